@@ -29,6 +29,80 @@ def native_closures(facts, fn_rx, crate):
     return out
 
 
+
+def rule_char_decoder(facts, rid):
+    t4 = Rule(rid, "every site that turns a text string into character counts or character positions (length, indices, slicing, split on the empty string, "
+              "regex offsets and lengths, explode) gets them from the one lossy UTF-8 decoder of bstr (chars / char_indices / decode_utf8): a site that "
+              "counts in another way disagrees with the others on some strings (multi-byte or invalid sequences); the byte-string arms do not decode", floor=8)
+    DEC = re.compile(r"^bstr::(ext_slice::ByteSlice::(chars|char_indices)|utf8::(decode|decode_last|decode_lossy))$")
+
+    def decoders(e):
+        return sorted({c for c in callees(e) if DEC.match(c)})
+
+    vv = dict(adt_variants(facts, "jaq_json::Val") or [])
+
+    def val_arm(fn_rx, value, what):
+        fs = facts.hir_find(fn_rx, "jaq_json")
+        if len(fs) != 1:
+            t4.missing_anchor(what)
+            return None
+        ms = [m for m in find(fs[0]["body"], lambda n: n.get("k") == "Match" and n.get("src") == "Normal")]
+        ms = [m for m in ms if "jaq_json::Val" in m["scrut_ty"]]
+        if not ms:
+            t4.missing_anchor(f"match on the value in {what}")
+            return None
+        cs = [c for c in candidates(ms[0]["arms"], value) if c[1] == "sure"]
+        if not cs:
+            t4.violate(f"{what}/arm", f"{what}: no arm decides {value}")
+            return None
+        return ms[0]["arms"][cs[-1][0]]
+
+    if not vv:
+        t4.missing_anchor("jaq_json::Val")
+    else:
+        V = lambda k: C(f"jaq_json::Val::{k}", *([ANY] * vv[k]))
+        for what, rx, tval, bval in (("length", r"^jaq_json::funs::<impl jaq_json::Val>::length$", V("TStr"), V("BStr")),
+                                     ("indices", r"^jaq_json::funs::<impl jaq_json::Val>::indices$", T(V("TStr"), V("TStr")), T(V("BStr"), V("BStr")))):
+            for kind, val, want in (("text", tval, True), ("bytes", bval, False)):
+                arm = val_arm(rx, val, what)
+                if arm is None:
+                    continue
+                d = decoders(arm["body"])
+                t4.examined((what, kind), True, {"site": f"{what} on {kind} strings", "decoders": d})
+                if want and not d:
+                    t4.violate(f"{what}/{kind}", f"`{what}` on text strings no longer counts with bstr's character decoder (calls: {sorted(set(callees(arm['body'])))[:6]}): it disagrees with slicing/indices/match offsets on some strings", where=arm["sp"])
+                if not want and d:
+                    t4.violate(f"{what}/{kind}", f"`{what}` on byte strings decodes characters ({d}): positions in byte strings are bytes", where=arm["sp"])
+    for what, rx, crate in (("split on the empty separator", r"^jaq_json::split$", "jaq_json"),
+                            ("regex byte->character offsets", r"^jaq_std::regex::ByteChar::<.*>::new$", "jaq_std"),
+                            ("regex match length", r"^jaq_std::regex::Match::<.*>::new$", "jaq_std"),
+                            ("explode", r"^<jaq_std::Explode<.*> as core::iter::traits::iterator::Iterator>::next$", "jaq_std")):
+        fs = facts.hir_find(rx, crate)
+        if len(fs) != 1:
+            t4.missing_anchor(what)
+            continue
+        d = decoders(fs[0]["body"])
+        t4.examined(what, True, {"site": what, "decoders": d})
+        if not d:
+            t4.violate(f"site/{what}", f"{what} no longer uses bstr's character decoder: its positions disagree with `length` and slicing on some strings", where=fs[0]["sp"])
+    # the slicing helper of text strings: whatever function the TStr arm of `range` passes on, it decodes; that of BStr does not
+    for kind, k, want in (("text", "TStr", True), ("bytes", "BStr", False)):
+        arm = val_arm(r"^<jaq_json::Val as jaq_core::val::ValT>::range$", C(f"jaq_json::Val::{k}", *([ANY] * vv.get(k, 1))), "range") if vv else None
+        if arm is None:
+            continue
+        helpers = sorted({n["path"]["def"] for n in find(arm["body"], lambda n: n.get("k") == "Path" and (n["path"].get("dk") or "") == "Fn" and (n["path"].get("def") or "").startswith("jaq_json::"))})
+        ds = []
+        for h in helpers:
+            hf = facts.hir_fn(h)
+            if hf is not None:
+                ds += decoders(hf["body"])
+        t4.examined(("range", kind), True, {"site": f"slicing {kind} strings", "helpers": helpers, "decoders": sorted(set(ds))})
+        if want and not ds:
+            t4.violate(f"range/{kind}", f"slicing a text string positions with {helpers}, none of which decodes characters", where=arm["sp"])
+        if not want and ds:
+            t4.violate(f"range/{kind}", f"slicing a byte string positions with a character decoder ({helpers})", where=arm["sp"])
+    return t4
+
 def run(facts, tier):
     t0 = time.time()
     rules = []
@@ -142,77 +216,7 @@ def run(facts, tier):
 
 
     # ---------------- T13.4 one character decoder for positions in text strings
-    t4 = Rule("T13.4", "every site that turns a text string into character counts or character positions (length, indices, slicing, split on the empty string, "
-              "regex offsets and lengths, explode) gets them from the one lossy UTF-8 decoder of bstr (chars / char_indices / decode_utf8): a site that "
-              "counts in another way disagrees with the others on some strings (multi-byte or invalid sequences); the byte-string arms do not decode", floor=8)
-    DEC = re.compile(r"^bstr::(ext_slice::ByteSlice::(chars|char_indices)|utf8::(decode|decode_last|decode_lossy))$")
-
-    def decoders(e):
-        return sorted({c for c in callees(e) if DEC.match(c)})
-
-    vv = dict(adt_variants(facts, "jaq_json::Val") or [])
-
-    def val_arm(fn_rx, value, what):
-        fs = facts.hir_find(fn_rx, "jaq_json")
-        if len(fs) != 1:
-            t4.missing_anchor(what)
-            return None
-        ms = [m for m in find(fs[0]["body"], lambda n: n.get("k") == "Match" and n.get("src") == "Normal")]
-        ms = [m for m in ms if "jaq_json::Val" in m["scrut_ty"]]
-        if not ms:
-            t4.missing_anchor(f"match on the value in {what}")
-            return None
-        cs = [c for c in candidates(ms[0]["arms"], value) if c[1] == "sure"]
-        if not cs:
-            t4.violate(f"{what}/arm", f"{what}: no arm decides {value}")
-            return None
-        return ms[0]["arms"][cs[-1][0]]
-
-    if not vv:
-        t4.missing_anchor("jaq_json::Val")
-    else:
-        V = lambda k: C(f"jaq_json::Val::{k}", *([ANY] * vv[k]))
-        for what, rx, tval, bval in (("length", r"^jaq_json::funs::<impl jaq_json::Val>::length$", V("TStr"), V("BStr")),
-                                     ("indices", r"^jaq_json::funs::<impl jaq_json::Val>::indices$", T(V("TStr"), V("TStr")), T(V("BStr"), V("BStr")))):
-            for kind, val, want in (("text", tval, True), ("bytes", bval, False)):
-                arm = val_arm(rx, val, what)
-                if arm is None:
-                    continue
-                d = decoders(arm["body"])
-                t4.examined((what, kind), True, {"site": f"{what} on {kind} strings", "decoders": d})
-                if want and not d:
-                    t4.violate(f"{what}/{kind}", f"`{what}` on text strings no longer counts with bstr's character decoder (calls: {sorted(set(callees(arm['body'])))[:6]}): it disagrees with slicing/indices/match offsets on some strings", where=arm["sp"])
-                if not want and d:
-                    t4.violate(f"{what}/{kind}", f"`{what}` on byte strings decodes characters ({d}): positions in byte strings are bytes", where=arm["sp"])
-    for what, rx, crate in (("split on the empty separator", r"^jaq_json::split$", "jaq_json"),
-                            ("regex byte->character offsets", r"^jaq_std::regex::ByteChar::<.*>::new$", "jaq_std"),
-                            ("regex match length", r"^jaq_std::regex::Match::<.*>::new$", "jaq_std"),
-                            ("explode", r"^<jaq_std::Explode<.*> as core::iter::traits::iterator::Iterator>::next$", "jaq_std")):
-        fs = facts.hir_find(rx, crate)
-        if len(fs) != 1:
-            t4.missing_anchor(what)
-            continue
-        d = decoders(fs[0]["body"])
-        t4.examined(what, True, {"site": what, "decoders": d})
-        if not d:
-            t4.violate(f"site/{what}", f"{what} no longer uses bstr's character decoder: its positions disagree with `length` and slicing on some strings", where=fs[0]["sp"])
-    # the slicing helper of text strings: whatever function the TStr arm of `range` passes on, it decodes; that of BStr does not
-    for kind, k, want in (("text", "TStr", True), ("bytes", "BStr", False)):
-        arm = val_arm(r"^<jaq_json::Val as jaq_core::val::ValT>::range$", C(f"jaq_json::Val::{k}", *([ANY] * vv.get(k, 1))), "range") if vv else None
-        if arm is None:
-            continue
-        helpers = sorted({n["path"]["def"] for n in find(arm["body"], lambda n: n.get("k") == "Path" and (n["path"].get("dk") or "") == "Fn" and (n["path"].get("def") or "").startswith("jaq_json::"))})
-        ds = []
-        for h in helpers:
-            hf = facts.hir_fn(h)
-            if hf is not None:
-                ds += decoders(hf["body"])
-        t4.examined(("range", kind), True, {"site": f"slicing {kind} strings", "helpers": helpers, "decoders": sorted(set(ds))})
-        if want and not ds:
-            t4.violate(f"range/{kind}", f"slicing a text string positions with {helpers}, none of which decodes characters", where=arm["sp"])
-        if not want and ds:
-            t4.violate(f"range/{kind}", f"slicing a byte string positions with a character decoder ({helpers})", where=arm["sp"])
-    rules.append(t4.finish())
+    rules.append(rule_char_decoder(facts, "T13.4").finish())
 
     explanation = ("Inversion of codecs for all strings, character offsets of matches and safety against real consumers are value-level: not decided. Decided: the constant escape tables and the bindings of the "
                    "format filters to their codecs, extracted from the typed HIR (and the one-line jq definitions).")
